@@ -7,5 +7,6 @@ CONSTANTS Cids = {1}
           NCalls = 3
           Wide = FALSE
           MaxNs = {1000}
+          Family = "mix"
 INVARIANT Emit
 CHECK_DEADLOCK FALSE
